@@ -189,6 +189,14 @@ def slice_value(ip, st, cont, lo, hi):
     raise X.Unanalysable('slice of %r' % (cont,))
 
 
+@S('re:^(core|std)::convert::num::<impl std::convert::From<bool> for (u8|u16|u32|u64|usize|i32|i64|isize)>::from$')
+def s_from_bool(ip, st, fr, name, args, c, site):
+    b = args[0]
+    if T.is_bool(b):
+        return one(I(1 if b[1] else 0))
+    return [([b], lambda *x: I(1)), ([T.mk_not(b)], lambda *x: I(0))]
+
+
 @S('std::ops::Range::<Idx>::contains', 'std::ops::RangeInclusive::<Idx>::contains', 'std::ops::RangeFrom::<Idx>::contains', 'std::ops::RangeTo::<Idx>::contains',
    'std::ops::RangeToInclusive::<Idx>::contains')
 def s_range_contains(ip, st, fr, name, args, c, site):
